@@ -239,12 +239,14 @@ structure In where
   rays : List (Q3 × Q3)
   pts : List Q3
   boxes : List (Q3 × Q3)
+  /-- heightfields: the field's own scale (the columns / rows run towards -x / -z when own scale × applied scale is negative) -/
+  hfScale : Option Q3 := none
 
 def fvd (dim : Nat) (v : V3 Float) : List String := if dim = 3 then [ff v.x, ff v.y, ff v.z] else [ff v.x, ff v.y]
 
 def pin (dim : Nat) (hasKind : Bool) : P In := do
   let kind ← (if hasKind then tok else pure "polyline")
-  let (prims, raw, oriented) ← (match kind with
+  let (prims, raw, oriented, hfs) ← (match kind with
     | "trimesh" => do
         let nv ← pnat; let vs ← pmany (pfd dim) nv
         let nt ← pnat; let ts ← pmany ptri nt
@@ -252,18 +254,18 @@ def pin (dim : Nat) (hasKind : Bool) : P In := do
         let V := vs.toArray
         let g (i : Nat) : V3 Float := (V[i]?).getD ⟨0.0, 0.0, 0.0⟩
         let raw := ts.map fun (a, b, c) => [g a, g b, g c]
-        pure (raw.map (·.map q3), some raw, (fl / 8) % 2 == 1 && closedOriented ts)
+        pure (raw.map (·.map q3), some raw, (fl / 8) % 2 == 1 && closedOriented ts, (none : Option Q3))
     | "polyline" => do
         let nv ← pnat; let vs ← pmany (pfd dim) nv
         let ne ← pnat; let es ← pmany pedge ne
         let V := vs.toArray
         let g (i : Nat) : V3 Float := (V[i]?).getD ⟨0.0, 0.0, 0.0⟩
         let raw := es.map fun (a, b) => [g a, g b]
-        pure (raw.map (·.map q3), some raw, false)
+        pure (raw.map (·.map q3), some raw, false, none)
     | "hf" => do
         let h ← phfBody false
         match h with
-        | .hf nr nc hs sc st _ => pure ((hfExpected nr nc hs sc st).map fun (a, b, c) => [a, b, c], none, false)
+        | .hf nr nc hs sc st _ => pure ((hfExpected nr nc hs sc st).map fun (a, b, c) => [a, b, c], none, false, some sc)
         | _ => failure
     | _ => failure)
   let sF ← pfd dim
@@ -274,7 +276,7 @@ def pin (dim : Nat) (hasKind : Bool) : P In := do
   pend
   let expToks := raw.map fun r => r.flatMap fun p => p.flatMap fun v => fvd dim ⟨v.x * sF.x, v.y * sF.y, v.z * sF.z⟩
   let s : Q3 := if dim = 3 then q3 sF else ⟨q sF.x, q sF.y, 1⟩
-  pure ⟨kind, prims, expToks, oriented, s, rays, pts, boxes⟩
+  pure ⟨kind, prims, expToks, oriented, s, rays, pts, boxes, hfs⟩
 
 def firstSome (l : List (Unit → Option String)) : Option String := l.findSome? fun f => f ()
 
@@ -306,7 +308,11 @@ def judge (dim : Nat) (I : In) (O : Out) : String :=
       | none => none
       | some (root, nodes) => bvhJudge P root nodes,
     -- rays
-    fun _ => (I.rays.zip O.rays).findSome? fun ((o, d), a) => rayJudge dim O.prims o d a,
+    fun _ => ((I.rays.zip O.rays).findSome? fun ((o, d), a) => rayJudge dim O.prims o d a).map fun e =>
+      -- a heightfield whose columns / rows run backwards (negative total x / z scale): one verdict
+      match I.hfScale with
+      | some h => if h.x * I.s.x < 0 || h.z * I.s.z < 0 then "heightfield-negative-xz-scale:" ++ e else e
+      | none => e,
     -- projections
     fun _ => (O.pts.findSome? fun (qp, w, _, _) =>
       let dm := d2shape O.prims qp
